@@ -9,6 +9,7 @@ import (
 	"errors"
 	"io"
 	"net"
+	"os"
 	"time"
 
 	"verifsim/sched"
@@ -36,6 +37,16 @@ func (h *half) SimName() string { return h.name }
 type End struct {
 	rd *half // bytes flowing towards this end
 	wr *half // bytes flowing away from this end
+	// read deadline armed by the code under test (SetDeadline / SetReadDeadline with a non-zero time)
+	armed bool
+	// When a read with an armed deadline finds nothing to read the plan decides whether the peer takes longer
+	// than that deadline (the read then fails with a timeout; what the peer sends arrives afterwards). Scheduled
+	// runs have no clock: a peer may be slower than any finite deadline, so expiry is a choice of the plan.
+	// LateAt lists which of those reads (0-based count of reads that found nothing under an armed deadline) time out.
+	LateAt []int
+	lateSeen int
+	// Expired counts the reads that timed out.
+	Expired int
 }
 
 // Pipe returns the two ends; name labels the connection in logs.
@@ -60,6 +71,17 @@ func (e *End) read(p []byte) (int, error) {
 		}
 	} else {
 		s.Yield("read?", e.rd.name)
+		if len(e.rd.buf) == 0 && !e.rd.closed && e.armed {
+			n := e.lateSeen
+			e.lateSeen++
+			for _, k := range e.LateAt {
+				if k == n {
+					e.Expired++
+					s.Note("read-timeout", e.rd.name)
+					return 0, os.ErrDeadlineExceeded
+				}
+			}
+		}
 		for len(e.rd.buf) == 0 && !e.rd.closed && !s.Over() {
 			s.Wait(e.rd, "readwait")
 		}
@@ -126,9 +148,12 @@ func (addr) String() string  { return "sim" }
 
 func (e *End) LocalAddr() net.Addr                { return addr{} }
 func (e *End) RemoteAddr() net.Addr               { return addr{} }
-func (e *End) SetDeadline(t time.Time) error      { return nil }
-func (e *End) SetReadDeadline(t time.Time) error  { return nil }
+func (e *End) SetDeadline(t time.Time) error      { return e.arm(!t.IsZero()) }
+func (e *End) SetReadDeadline(t time.Time) error  { return e.arm(!t.IsZero()) }
 func (e *End) SetWriteDeadline(t time.Time) error { return nil }
+
+//go:norace
+func (e *End) arm(on bool) error { e.armed = on; return nil }
 
 // Sent returns everything written from this end, and who wrote it.
 //
